@@ -441,6 +441,15 @@ def _ci_eq(a, b):
     return a == b or (a.isascii() and b.isascii() and a.lower() == b.lower())
 
 
+# letters beyond ASCII whose upper and lower case are one character each and each other's only partner: "ignoring case"
+# is as simple for them as for a-z (ß, ı, ſ, the Kelvin sign and the like stay outside the judged subset)
+RX_LETTERS = "äÄöÖüÜéÉωΩжЖ"
+
+
+def _ci_eq_rx(a, b):
+    return _ci_eq(a, b) or (a in RX_LETTERS and b in RX_LETTERS and a.lower() == b.lower())
+
+
 def _in_set(c, ranges):
     for lo, hi in ranges:
         for probe in (c, c.lower(), c.upper()):
@@ -592,7 +601,8 @@ class _Rx(object):
             if e == "d":
                 return ("set", False, [("0", "9")])
             if e == "w":
-                return ("set", False, [("0", "9"), ("a", "z"), ("A", "Z"), ("_", "_")])
+                # (a word character in the Unicode sense: letters of every script)
+                return ("set", False, [("0", "9"), ("a", "z"), ("A", "Z"), ("_", "_")] + [(ch, ch) for ch in RX_LETTERS])
             if e == "s":
                 return ("set", False, [(" ", " "), ("\t", "\t")])
             if e in self.META or e in "-/ ":
@@ -600,7 +610,7 @@ class _Rx(object):
             return None
         if c in "*+?{})|]":
             return None
-        if ord(c) > 126 or c in "\r\n":
+        if (ord(c) > 126 and c not in RX_LETTERS) or c in "\r\n":
             return None
         return ("lit", c)
 
@@ -648,7 +658,7 @@ def _rx_match(node, value, pos, k):
     if kind == "dot":
         return c != "\n" and k(pos + 1)
     if kind == "lit":
-        return _ci_eq(node[1], c) and k(pos + 1)
+        return _ci_eq_rx(node[1], c) and k(pos + 1)
     if kind == "set":
         return (_in_set(c, node[2]) != node[1]) and k(pos + 1)
     raise AssertionError(kind)
@@ -663,7 +673,7 @@ def regex_prefix_match(rule, value):
 
 
 def expect_regex(decl, fmt, value):
-    if any(ord(c) > 126 or c in "\r\n" for c in value):
+    if any((ord(c) > 126 and c not in RX_LETTERS) or c in "\r\n" for c in value):
         return (UNJUDGED, "RegEx value with non-ASCII characters or line breaks")
     try:
         result = regex_prefix_match(decl.get("rule") or "", value)
